@@ -44,7 +44,7 @@ PROPS = {
                    extra=[S.verdict_stream_for("unwind", "core", "unwind", 40, 1500, shards=4)]),
     "C05": sysprop(["C05"], ["mixed", "default", "cancelable", "local"], 250, 4000, GEN_RULE),
     "C06": sysprop(["C06"], ["default", "cancelable", "mixed", "local"], 250, 4000, GEN_RULE + "; plus user code that panics inside a tracing call (property closures of every entry point, span / event names whose conversion panics, a panic unwinding through a scope), caught by the caller: the trace still arrives whole, later spans hang under the right parents, the local context is restored, nothing of the panicking closure is recorded",
-                   extra=[S.verdict_stream_for("unwind", "core", "unwind", 40, 1500, shards=4)]),
+                   extra=[S.verdict_stream_for("unwind", "core", "unwind", 40, 1500, shards=4), S.verdict_stream_for("live", "core", "live", 12, 120, shards=2)]),
     "C11": sysprop(["C11"], ["mixed", "local", "adapters"], 250, 4000, GEN_RULE + "; plus user code that panics inside a tracing call (property closures of every entry point, span / event names whose conversion panics, a panic unwinding through a scope), caught by the caller: the trace still arrives whole, later spans hang under the right parents, the local context is restored, nothing of the panicking closure is recorded",
                    extra=[S.verdict_stream_for("unwind", "core", "unwind", 40, 1500, shards=4)]),
     "C13": sysprop(["C13"], ["adapters", "cancelable", "mixed"], 250, 4000, GEN_RULE + "; plus adapters dropped before completion whose "
